@@ -37,7 +37,7 @@ CONSTANTS
   HdrLen,      \* bytes of a message header (8)
   Peek, Slack, LoseTail,
   Streams,     \* receive side: set of [frames |-> sequence of [id, kind, size, len], max |-> maximum message size (0 = none),
-               \*   cuts |-> "all": every segmentation;  "near": segments end only next to a header end or a frame end;
+               \*   cuts |-> "all": every segmentation;  "near" / "edge": segments end only next to a header end or a frame end;
                \*            "ones": single bytes;  "sample": KSet,
                \*   run |-> a Read step may stand for up to `run' consecutive reads of the same size (1 = plain reads)]
   Scripts      \* send side: set of [msgs |-> sequence of messages (a message = the sizes of its secured chunks), cuts, run,
@@ -129,6 +129,11 @@ NearPoints(fr) ==
   UNION {LET b == Off(fr, i - 1) IN {b + 1, b + HdrLen - 1, b + HdrLen, b + HdrLen + 1, b + fr[i].len - 1, b + fr[i].len}
          : i \in 1..Len(fr)}
 
+\* the same without the cut one byte into a frame
+EdgePoints(fr) ==
+  UNION {LET b == Off(fr, i - 1) IN {b + HdrLen - 1, b + HdrLen, b + HdrLen + 1, b + fr[i].len - 1, b + fr[i].len}
+         : i \in 1..Len(fr)}
+
 KBase == {1, 2, 3, 4, 5, 7, 8, 9, 10, 11, 12, 13, 16, 27, 28, 29, 31, 32, 33, 64, 100, 255, 256, 500, 1000, 1024, 4096,
           8195, 8196, 8197}
 \* sample of segment sizes: small ones, ones that end next to the next header end / frame end, the rest of the stream
@@ -144,6 +149,7 @@ SegSizes(fr, p) ==
       Cuts == str.cuts IN
   CASE Cuts = "all"  -> 1..rem
     [] Cuts = "near" -> {k \in 1..rem : p + k \in NearPoints(fr) \cup {Total(fr)}}
+    [] Cuts = "edge" -> {k \in 1..rem : p + k \in EdgePoints(fr) \cup {Total(fr)}}
     [] Cuts = "ones" -> {1}                                   \* the all-single-bytes schedule
     [] OTHER         -> KSet(fr, p)
 
